@@ -201,12 +201,19 @@ std::array<int8_t, N * 4> bytes_to_symbols(const std::array<T, N>& bytes)
     return result;
 }
 
+// One filter for the whole transmission: every block continues the previous one.
+inline auto& baseband_filter()
+{
+    static mobilinkd::BaseFirFilter<double, std::tuple_size<decltype(rrc_taps)>::value> rrc = mobilinkd::makeFirFilter(rrc_taps);
+    return rrc;
+}
+
 template <size_t N>
 std::array<int16_t, N*10> symbols_to_baseband(std::array<int8_t, N> symbols)
 {
     using namespace mobilinkd;
 
-    static BaseFirFilter<double, std::tuple_size<decltype(rrc_taps)>::value> rrc = makeFirFilter(rrc_taps);
+    auto& rrc = baseband_filter();
 
     std::array<int16_t, N*10> baseband;
     baseband.fill(0);
